@@ -71,7 +71,7 @@ def tier_runs(tier):
 
 
 def tier_budget_s(tier):
-    return 420 if tier == "quick" else 3600
+    return 900 if tier == "quick" else 5400
 
 
 # ----------------------------------------------------------------------------- templates (built by the tree under test)
@@ -232,7 +232,7 @@ def _iso_spec(rng, cfg):
     if isinstance(material, dict) and len(material) == 1:
         material = mname
     ads = rng.choice(list(UADS) + REG_GASES + REG_GASES)
-    T = rng.choice([77.355, 273.15, 298.15, 303.0])
+    T = rng.choice([77.355, 273.15, 298.15, 303.0, 298.15, 298.1500000001])   # incl. two temperatures 1e-10 apart
     units = {"pressure_mode": "absolute", "pressure_unit": rng.choice(["bar", "kPa", "Pa"]),
              "loading_basis": rng.choice(["molar", "mass", "volume_gas"]), "loading_unit": None,
              "material_basis": rng.choice(["mass", "mass", "volume"]), "material_unit": None,
@@ -246,7 +246,7 @@ def _iso_spec(rng, cfg):
             units["loading_basis"], units["loading_unit"] = "fraction", None
     meta = {}
     pool = {"user": "alice", "t_act": 150.5, "flag": True, "verif_i1": "xyz", "verif_i2": 0.125, "verif_i3": False,
-            "comment": "second run", "machine": "M-3"}
+            "comment": "second run", "machine": "M-3", "verif_one": 1.0, "verif_zero": 0.0}
     for k in rng.sample(sorted(pool), rng.randint(0, 4)):
         meta[k] = pool[k]
     if cfg["open_domain"] and rng.random() < 0.1:
@@ -360,6 +360,16 @@ def gen_op(rng, cfg, models, favourites):
     elif o == "isotherm_to_db":
         if favourites and rng.random() < 0.55:
             op["iso"] = copy.deepcopy(rng.choice(favourites))
+            if op["iso"]["kind"] == "point" and rng.random() < 0.15:
+                # the same rows in reverse order (a different isotherm: the order of points is content)
+                iso = op["iso"]
+                for key in ("pressure", "loading"):
+                    iso[key] = list(reversed(iso[key]))
+                iso["other"] = {c: list(reversed(v)) for c, v in (iso.get("other") or {}).items()}
+                if isinstance(iso.get("branch"), list):
+                    iso["branch"] = list(reversed(iso["branch"]))
+                elif iso.get("branch") == "guess":
+                    iso["branch"] = "ads" 
         else:
             op["iso"] = _iso_spec(rng, cfg)
             if len(favourites) < 5:
@@ -390,7 +400,7 @@ def gen_op(rng, cfg, models, favourites):
                 elif k == "adsorbate":
                     crit[k] = rng.choice(UNIVERSE["ads"])
                 elif k == "temperature":
-                    crit[k] = rng.choice([77.355, 273.15, 298.15, 303.0, 0.0, 25.0])
+                    crit[k] = rng.choice([77.355, 273.15, 298.15, 303.0, 0.0, 25.0, 298.1500000001, 25.000000000100044])
                 else:
                     crit[k] = rng.choice(["isotherm", "pointisotherm", "modelisotherm"])
         op["criteria"] = crit
